@@ -94,6 +94,25 @@ Proof.
 Qed.
 Print Assumptions C03_image_refuted_rejected_modification.
 
+(* F12, parse-phase variant (same defect: a rejection after an in-place mutation of the aliased store): {Update FAR 2
+   (new tunnel), unreadable Update FAR} is REJECTED and writes nothing, yet the stored FAR 2 carries the new tunnel
+   (9, TEID 7) while farLookup still holds the old one (8, TEID 6).  This is why the guard of the history theorem below
+   admits a parse-phase rejection only when no Update had taken effect before the failing IE *)
+Theorem C03_image_refuted_rejected_update :
+  exists a c m a' c' o,
+    handle (fun _ _ _ => 0) a c true m [] = Done (a', c', o) /\ o_reply o = Some (RMod 77 CAUSE_REJ) /\ o_cmds o = [] /\
+    map (fun s => map (fun f => (a_id f, a_tdst f, a_teid f)) (view (s_fars s))) (c_sessions c) = [[(2, 8, 6)]] /\
+    map (fun s => map (fun f => (a_id f, a_tdst f, a_teid f)) (view (s_fars s))) (c_sessions c') = [[(2, 9, 7)]] /\
+    a_tables a' = a_tables a /\ t_far (a_tables a) = [([2; 5], [1; 0; 1; 100; 8; 6; 2152])].
+Proof.
+  set (f2 := Far 2 5 0 false 2 1 100 8 6 2152).
+  exists (Agent (Cfg 100 200 true) None (Gen 0 []) 1 (apply_cmds (far_add f2) no_tables)).
+  exists (Conn 7 [] [Sess 5 77 (s_of []) (s_of [f2]) (s_of [])] 0).
+  exists (MMod 5 None [] [] [] [] [FarIE (IOk 2) (IOk 2) IErr (IOk [FDst (IOk 0); FOhc (IOk (7, Some 9))]); FarIE IErr IErr IErr IErr] [] [] [] []).
+  do 3 eexists. repeat split; vm_compute; reflexivity.
+Qed.
+Print Assumptions C03_image_refuted_rejected_update.
+
 (* F13: an Update PDR that changes the match key (new UE address) is accepted; the entry under the old key stays *)
 Theorem C03_image_refuted_key_changing_update :
   exists a c m a' c' o old_key,
@@ -127,6 +146,29 @@ Proof.
   do 3 eexists. repeat split; vm_compute; reflexivity.
 Qed.
 Print Assumptions C03_image_refuted_qer_relabel.
+
+(* A fourth shape, met while proving the history theorem below (not yet a recorded finding): a PDR is REPLACED in one
+   message - {Remove PDR 1, Create PDR 2 with the same PDI}.  The handler sends the add batch first and the delete batch
+   afterwards, both address the same pdrLookup key: the modification is accepted, the session stores PDR 2, and
+   pdrLookup is EMPTY (the new entry was deleted with the old one) *)
+Theorem C03_image_refuted_replace_same_key :
+  exists a c m a' c' o,
+    handle (fun _ _ _ => 0) a c true m [] = Done (a', c', o) /\ o_reply o = Some (RMod 77 CAUSE_OK) /\
+    map (fun s => map p_id (view (s_pdrs s))) (c_sessions c) = [[1]] /\ length (t_pdr (a_tables a)) = 1%nat /\
+    map (fun s => map p_id (view (s_pdrs s))) (c_sessions c') = [[2]] /\ t_pdr (a_tables a') = [] /\
+    map (fun x => (c_add x, c_key x)) (o_cmds o) =
+      [(true, [2; 0; 0; 0; 50; 0; 0; 0; 255; 0; 0; 0; 4294967295; 0; 0; 0]);
+       (false, [2; 0; 0; 0; 50; 0; 0; 0; 255; 0; 0; 0; 4294967295; 0; 0; 0])].
+Proof.
+  set (p1 := Pdr 1 5 2 255 0 0 0 0 50 10 1 [] 0 false false 0 0 50 4294967295 (PR 0 0) (PR 0 0) 0 0).
+  exists (Agent (Cfg 100 200 true) None (Gen 0 []) 1 (apply_cmds (pdr_add p1) no_tables)).
+  exists (Conn 7 [] [Sess 5 77 (s_of [p1]) (s_of []) (s_of [])] 0).
+  exists (MMod 5 None [PdrIE (IOk 2) (IOk 20) (IOk [PSrc (IOk 1); PUeip (IOk (2, Some 50))]) false (IOk 1) true []] [] [] [] [] [] [IOk 1] [] []).
+  do 3 eexists. split; [vm_compute; reflexivity|].
+  split; [vm_compute; reflexivity|]. split; [vm_compute; reflexivity|]. split; [vm_compute; reflexivity|].
+  split; [vm_compute; reflexivity|]. split; [vm_compute; reflexivity|]. vm_compute; reflexivity.
+Qed.
+Print Assumptions C03_image_refuted_replace_same_key.
 
 (* ---- the image invariant over HISTORIES of several associations (Model/World.v): along every history of
    establishments (accepted or rejected), deletions, Session Report responses, association releases, teardowns,
@@ -185,4 +227,140 @@ Proof.
       * intros s [<-|[]]. apply D2; [vm_compute; lia|]. intros a b Ha Hb. vm_compute in Ha, Hb. inversion Ha; inversion Hb; subst. split; reflexivity.
       * intros s1 s2 [<-|[]] [<-|[]] Hne. exfalso. apply Hne. reflexivity.
     + intros s [<-|[]] He. vm_compute in He. discriminate.
+Qed.
+
+(* ---- the image invariant over histories INCLUDING Session Modification, inside the guard [mod_ok]
+   (Proofs/ModWorld.v; per-step lemmas in Proofs/ModImage.v).  [guarded_hist burst w es] checks every event against the
+   state it meets: events other than Session Modification must satisfy [ev_ok] as before; a Session Modification must
+   satisfy the executable guard [mod_ok burst (state before) association message]:
+     - unknown SEID: always inside (rejected, nothing changes);
+     - a parse loop stops (rejected before anything is written): inside when the failing IE is a Create PDR / FAR /
+       QER, or an Update IE before which no Update had hit a stored rule (only appends happened), and the stored
+       slices are well formed (len <= cap) - then the stored rule lists are unchanged although the backing arrays
+       are the working copies';
+     - all parse loops complete ([late_ok]): an Update PDR keeps the pdrLookup keys of the rule it replaces; stored
+       FARs / QERs named by an Update carry the session's SEID and such a QER is application level; PDR ids are
+       pairwise distinct when the message writes PDRs (created ids are fresh); the FARs (QERs) written by the message
+       have pairwise distinct ids; MarkSessionQer re-run on the session's lists and on the message's QER list changes
+       nothing (no relabel - true of a session already marked at establishment); every Remove PDR / FAR / QER id
+       resolves; when creations and removals come in one message, the rule lists the session has BETWEEN the add batch
+       and the delete batch (old and new rules together) have pairwise distinct keys, distinct from the other
+       sessions' keys (a Create whose key equals that of a rule removed by the same message is installed and then
+       deleted: C03_image_refuted_replace_same_key).
+   Inside: any number of Update FARs (Outer Header Creation, end-marker flag, buffering, unknown ids skipped), CP
+   F-SEID change, Remove PDR/FAR/QER of existing rules, Create PDR/FAR/QER, Update QER of application-level QERs,
+   Update PDR that changes precedence / FAR id / QER list / value fields but not the match key - and their mixtures.
+   Outside (the three refuting shapes above and what the proof does not reach): a rejected modification whose failing
+   IE comes after an in-place update or whose Remove id is unknown (F12), key-changing Update PDR (F13), relabelling
+   and Update of the session-level QER (F13b), the same FAR / QER id written twice in one message. *)
+From UPF Require Import Proofs.ModImage Proofs.ModWorld.
+Theorem C03_image_invariant_mod_partial : forall burst es w w',
+  (forall x, In x (states burst w es) -> envelope burst x /\ alloc_backed x) ->
+  guarded_hist burst w es = true -> image_ok burst w -> wrun burst w es = Done w' -> image_ok burst w'.
+Proof. exact image_invariant_mod. Qed.
+Print Assumptions C03_image_invariant_mod_partial.
+
+(* the old theorem's histories are inside the new guard *)
+Theorem C03_mod_guard_subsumes : forall burst es w, forallb ev_ok es = true -> guarded_hist burst w es = true.
+Proof. exact ev_ok_hist_ok. Qed.
+Print Assumptions C03_mod_guard_subsumes.
+
+(* per step, accepted: under the guard the modification is ACCEPTED, the stored session is replaced by [s'], the
+   tables are the old ones with the message's batch applied, and whatever else the tables hold ([rest], disjoint by
+   the envelope) the image of the session before becomes the image of the session after *)
+Theorem C03_mod_image_step : forall burst a c seid cpf cp cf cq up uf uq rp rf rq mid s0 w6 a' c' o,
+  find_session seid (c_sessions c) = Some s0 ->
+  mod_loops a c s0 seid cp cf cq up uf uq = (w6, 0%nat) ->
+  late_ok a c seid s0 w6 cp cf cq up uf uq rp rf rq mid = true ->
+  handle_mod burst a c seid cpf cp cf cq up uf uq rp rf rq = Done (a', c', o) ->
+  exists s', c_sessions c' = replace_session s' (c_sessions c) /\ s_lseid s' = s_lseid s0 /\
+    a_tables a' = apply_cmds (o_cmds o) (a_tables a) /\ o_reply o = Some (RMod (new_rseid cpf s0) CAUSE_OK) /\
+    (forall rest, is_image (a_tables a) (session_cmds burst s0 ++ rest) ->
+       NoDup (map tg (session_cmds burst s0)) -> disjoint_from (session_cmds burst s0) rest ->
+       NoDup (map tg (session_cmds burst s')) -> disjoint_from (session_cmds burst s') rest ->
+       ((nil_b cp && nil_b cf && nil_b cq) || (nil_b rp && nil_b rf && nil_b rq) = false -> mid = true ->
+        NoDup (map tg (add_cmds burst (view (w_p w6)) (view (w_f w6)) (view (w_q w6)))) /\
+        disjoint_from (add_cmds burst (view (w_p w6)) (view (w_f w6)) (view (w_q w6))) rest) ->
+       is_image (a_tables a') (session_cmds burst s' ++ rest)).
+Proof. exact mod_late_image. Qed.
+Print Assumptions C03_mod_image_step.
+
+(* per step, rejected in the parse phase by a Create IE (or by an Update IE before any update took effect): nothing is
+   written and the stored rule lists are unchanged (F12 is the rejection AFTER the parse phase, where they are not) *)
+Theorem C03_mod_parse_reject_step : forall burst a c seid cpf cp cf cq up uf uq rp rf rq s0 w k a' c' o,
+  find_session seid (c_sessions c) = Some s0 ->
+  mod_loops a c s0 seid cp cf cq up uf uq = (w, S k) ->
+  early_ok s0 (S k) w cp cf cq = true ->
+  handle_mod burst a c seid cpf cp cf cq up uf uq rp rf rq = Done (a', c', o) ->
+  exists s', c_sessions c' = replace_session s' (c_sessions c) /\ s_lseid s' = s_lseid s0 /\
+    a_tables a' = a_tables a /\ o_cmds o = [] /\ o_reply o = Some (RMod (new_rseid cpf s0) CAUSE_REJ) /\
+    session_cmds burst s' = session_cmds burst s0.
+Proof. exact mod_early_image. Qed.
+Print Assumptions C03_mod_parse_reject_step.
+
+(* non-vacuity: association setup; establishment of a session with an uplink and a downlink PDR, two FARs, two QERs
+   (QER 2 becomes the session-level one); a handover-style modification with three Update FARs (FAR 2: new tunnel with
+   the end-marker flag, FAR 99: unknown, skipped, FAR 1); a modification creating PDR 3 / FAR 3; a CP F-SEID change; a
+   modification with an Update PDR (new precedence, same key) and an Update QER (application QER 1); a modification
+   that removes PDR 3 / FAR 3 and creates PDR 4 / FAR 4 in one message; a modification rejected in the parse phase
+   (unreadable Create FAR); the deletion.  Every
+   hypothesis of the theorem holds of this history (every state inside the envelope, every event inside the guard), all
+   modifications but the eighth event are accepted, the end marker goes to the OLD tunnel (100 -> 8, TEID 6), and
+   after the seventh event the FAR table holds FAR 2 with the new tunnel (9, TEID 7) and FAR 4 instead of FAR 3, PDR 2
+   has the new precedence, PDR 4 replaces PDR 3 and the application QER entries have the new rate *)
+Example C03_image_invariant_mod_nonvacuous :
+  let burst := fun _ _ _ : N => 0 in
+  let w0 := World (Agent (Cfg 100 200 true) None (Gen 0 []) 0 no_tables) [] in
+  let pdr1 := PdrIE (IOk 1) (IOk 10) (IOk [PSrc (IOk 0); PFteid (IOk (false, 11, Some 100))]) true (IOk 1) true [1; 2] in
+  let pdr2 := PdrIE (IOk 2) (IOk 10) (IOk [PSrc (IOk 1); PUeip (IOk (2, Some 50))]) false (IOk 2) true [1; 2] in
+  let far1 := FarIE (IOk 1) (IOk 2) (IOk [FDst (IOk 1)]) IErr in
+  let far2 := FarIE (IOk 2) (IOk 2) (IOk [FDst (IOk 0); FOhc (IOk (6, Some 8))]) IErr in
+  let qer1 := QerIE (IOk 1) 9 0 0 1000 1000 0 0 in
+  let qer2 := QerIE (IOk 2) 9 0 0 5000 5000 0 0 in
+  let ufar2 := FarIE (IOk 2) (IOk 2) IErr (IOk [FDst (IOk 0); FOhc (IOk (7, Some 9)); FSm (IOk 2)]) in
+  let ufar1 := FarIE (IOk 1) (IOk 2) IErr (IOk [FDst (IOk 1)]) in
+  let ufar99 := FarIE (IOk 99) (IOk 2) IErr (IOk [FDst (IOk 1)]) in
+  let pdr3 := PdrIE (IOk 3) (IOk 20) (IOk [PSrc (IOk 1); PUeip (IOk (2, Some 51))]) false (IOk 3) true [1; 2] in
+  let far3 := FarIE (IOk 3) (IOk 2) (IOk [FDst (IOk 0); FOhc (IOk (16, Some 8))]) IErr in
+  let pdr4 := PdrIE (IOk 4) (IOk 20) (IOk [PSrc (IOk 1); PUeip (IOk (2, Some 52))]) false (IOk 4) true [1; 2] in
+  let far4 := FarIE (IOk 4) (IOk 2) (IOk [FDst (IOk 0); FOhc (IOk (17, Some 8))]) IErr in
+  let upd2 := PdrIE (IOk 2) (IOk 30) (IOk [PSrc (IOk 1); PUeip (IOk (2, Some 50))]) false (IOk 2) true [1; 2] in
+  let uqer1 := QerIE (IOk 1) 9 0 0 2000 2000 0 0 in
+  let es := [WMsg 0 true (MSetup (Some (IOk 7)) (Some (IOk 1))) [];
+             WMsg 0 true (MEst (Some (IOk 7)) (Some (IOk (77, Some 3))) [pdr1; pdr2] [far1; far2] [qer1; qer2]) [5];
+             WMsg 0 true (MMod 5 None [] [] [] [] [ufar2; ufar99; ufar1] [] [] [] []) [];
+             WMsg 0 true (MMod 5 None [pdr3] [far3] [] [] [] [] [] [] []) [];
+             WMsg 0 true (MMod 5 (Some (IOk (78, Some 3))) [] [] [] [] [] [] [] [] []) [];
+             WMsg 0 true (MMod 5 None [] [] [] [upd2] [] [uqer1] [] [] []) [];
+             WMsg 0 true (MMod 5 None [pdr4] [far4] [] [] [] [] [IOk 3] [IOk 3] []) [];
+             WMsg 0 true (MMod 5 None [] [FarIE IErr IErr IErr IErr] [] [] [] [] [] [] []) [];
+             WMsg 0 true (MDel 5) []] in
+  (forall x, In x (states burst w0 es) -> envelope burst x /\ alloc_backed x) /\
+  guarded_hist burst w0 es = true /\ forallb ev_ok es = false /\ image_ok burst w0 /\
+  wtrace burst w0 es =
+    [(Some (RSetup CAUSE_OK), []); (Some (REst 77 CAUSE_OK true (Some 5) []), []);
+     (Some (RMod 77 CAUSE_OK), [Marker 100 8 6]); (Some (RMod 77 CAUSE_OK), []); (Some (RMod 78 CAUSE_OK), []);
+     (Some (RMod 78 CAUSE_OK), []); (Some (RMod 78 CAUSE_OK), []); (Some (RMod 78 CAUSE_REJ), []); (Some (RDel 78 CAUSE_OK), [])] /\
+  (exists w7, wrun burst w0 (firstn 7 es) = Done w7 /\ image_ok burst w7 /\
+     a_tables (w_agent w7) =
+       Tables [([2; 0; 0; 0; 52; 0; 0; 0; 255; 0; 0; 0; 4294967295; 0; 0; 0], [0; 4294967275; 4; 5; 0; 1; 4]);
+               ([2; 0; 0; 0; 50; 0; 0; 0; 255; 0; 0; 0; 4294967295; 0; 0; 0], [0; 4294967265; 2; 5; 0; 1; 2]);
+               ([1; 100; 11; 0; 0; 0; 0; 0; 255; 4294967295; 4294967295; 0; 0; 0; 0; 0], [1; 4294967285; 1; 5; 0; 1; 1])]
+              [([4; 5], [1; 0; 1; 100; 8; 17; 2152]); ([1; 5], [0; 1; 0; 200; 0; 0; 0]); ([2; 5], [1; 0; 1; 100; 9; 7; 2152])]
+              [([2; 1; 5], [0; 1; 250000; 0; 0; 0; 9]); ([1; 1; 5], [0; 1; 250000; 0; 0; 0; 9])]
+              [([2; 5], [0; 1; 625000; 0; 0; 0]); ([1; 5], [0; 1; 625000; 0; 0; 0])]) /\
+  (exists w9, wrun burst w0 es = Done w9 /\ image_ok burst w9 /\ a_tables (w_agent w9) = no_tables).
+Proof.
+  intros burst w0 pdr1 pdr2 far1 far2 qer1 qer2 ufar2 ufar1 ufar99 pdr3 far3 pdr4 far4 upd2 uqer1 es.
+  assert (forall x, In x (states burst w0 es) -> envelope burst x /\ alloc_backed x) as Henv
+    by (apply states_ok_b; vm_compute; reflexivity).
+  split; [exact Henv|]. split; [vm_compute; reflexivity|]. split; [vm_compute; reflexivity|]. split; [apply image_empty|].
+  split; [vm_compute; reflexivity|]. split.
+  - eexists. split; [vm_compute; reflexivity|]. split; [|vm_compute; reflexivity].
+    apply (C03_image_invariant_mod_partial burst (firstn 7 es) w0); [| |apply image_empty|vm_compute; reflexivity].
+    + apply states_ok_b. vm_compute. reflexivity.
+    + vm_compute. reflexivity.
+  - eexists. split; [vm_compute; reflexivity|]. split; [|vm_compute; reflexivity].
+    apply (C03_image_invariant_mod_partial burst es w0); [exact Henv| |apply image_empty|vm_compute; reflexivity].
+    vm_compute. reflexivity.
 Qed.
